@@ -244,6 +244,14 @@ def check(ctx, rep):
         if s.target.name in ("shelve.open", "dbm.open") and s.func not in done_c:
             done_c.add(s.func)
             completeness_obligations(ctx, rep, eff, s, H)
+    loader_guard_obligations(ctx, rep, eff, "R11a")
+
+
+def loader_guard_obligations(ctx, rep, eff, rule="R11a"):
+    """Every load of a server-written cache is guarded against each failure class of a cut-off file, and the failure path
+    regenerates (shared with C14: a reader that races a writer sees exactly such a file)."""
+    prog = ctx.prog
+    sites = deser_sites(ctx, eff)
     for s, H in sites:
         f = s.func
         rep.analysed(f.qualname)
@@ -280,7 +288,8 @@ def check(ctx, rep):
                     if isinstance(n, ast.Name) and n.id == holder and isinstance(n.ctx, ast.Load):
                         if not ({id(t) for t in enclosing_tries(f.node, n)} & tries_open) and tries_open:
                             kept = f"it is read outside the guard (line {n.lineno})"
-            rep.add("R11b", f"{f.qualname}: {norm(s.call)[:40]} is consumed under the guard", kept is None, ctx.where(f, s.call),
+            if rule == "R11a":
+              rep.add("R11b", f"{f.qualname}: {norm(s.call)[:40]} is consumed under the guard", kept is None, ctx.where(f, s.call),
                     f"the opened store is kept ({kept}): a store that is cut short or zero-filled inside opens without error and fails at the first "
                     "look-up, outside the try that treats a damaged cache as missing" if kept else "", key=f"R11b|{f.qualname}")
         problems = []
@@ -372,14 +381,24 @@ def check(ctx, rep):
                         problems.append("the failure path still marks the entries as loaded from the cache")
                     if e.kind == "call" and e.target.kind == "repo" and e.target.bound_cls is not None:
                         regenerated = True
+                    # tidying up on the failure path can fail too (two readers removing the same damaged file, a directory the
+                    # server may not write to): unguarded, that failure takes the request down instead of the listing being rebuilt
+                    if e.kind == "call" and isinstance(e.node.func, ast.Attribute) and e.node.func.attr in ("unlink", "remove", "rename", "replace", "rmdir", "truncate") \
+                            or (e.kind == "call" and (dotted(e.node.func) or "") in ("os.unlink", "os.remove", "os.rename", "os.replace", "os.truncate")):
+                        owner = e.frame[0] if e.frame and e.frame[0] is not None else root
+                        guarded_ = any(catches(h, "OSError") for tr in enclosing_tries(owner.node, e.node) for h in tr.handlers
+                                       if any(x is e.node for b_ in tr.body for x in ast.walk(b_)))
+                        if not guarded_:
+                            problems.append(f"on the failure path `{norm(e.node)[:40]}` can itself fail with OSError (the file is gone already, the directory is not "
+                                            "writable): the request then ends in an error instead of a regenerated listing")
                 if normal_truthy:
                     if not (p.kind in ("return", "fall") and truth(p.value) is False or (p.kind == "fall")):
                         if not (p.kind == "return" and truth(p.value) is False):
                             problems.append("after a failed load the function still reports a cache hit")
                 elif not regenerated and p.kind != "return":
                     problems.append("after a failed load nothing rebuilds the data")
-        rep.add("R11a", f"{f.qualname}: {norm(s.call)[:50]}", not problems, ctx.where(f, s.call),
-                "; ".join(sorted(set(problems))), key=f"R11a|{f.qualname}|{norm(s.call.func)}")
+        rep.add(rule, f"{f.qualname}: {norm(s.call)[:50]}", not problems, ctx.where(f, s.call),
+                "; ".join(sorted(set(problems))), key=f"{rule}|{f.qualname}|{norm(s.call.func)}")
 
 
 def _possible_constants(expr, func, _depth=0):
